@@ -12,15 +12,51 @@ Conventions (recorded in the generated file's header):
 from __future__ import annotations
 
 import ast
+import decimal
+import glob
+import importlib.util
+import math
 import os
 
+import types
+
+import py2lean
 from py2lean import Untranslatable, S, V, B, I, find_def
+
+VE = "VE"  # a 1-d array as a Lean `List (Expr N)` (vector kernels: Planar, mixtures)
 
 PRIMS = {
     "jnp.abs": "abs", "jnp.sign": "sign", "jnp.tanh": "tanh", "jnp.arctanh": "artanh", "jnp.sqrt": "sqrt",
     "jnp.log": "log", "jnp.exp": "exp", "jnp.expm1": "expm1", "softplus": "softplus", "jax.nn.softplus": "softplus",
     "nn.softplus": "softplus", "math.exp": "exp", "math.tanh": "tanh",
+    # jax.lax spellings (used by the jax.scipy.stats sources) and the primitives added for the distribution families
+    "lax.abs": "abs", "lax.sign": "sign", "lax.tanh": "tanh", "lax.sqrt": "sqrt", "lax.log": "log", "lax.exp": "exp",
+    "lax.expm1": "expm1", "lax.log1p": "log1p", "jnp.log1p": "log1p", "lax.square": "square", "jnp.square": "square",
+    "lax.lgamma": "lgamma", "nn.relu": "relu", "jax.nn.relu": "relu",
 }
+LAX_BIN = {"lax.add": ast.Add, "lax.sub": ast.Sub, "lax.mul": ast.Mult, "lax.div": ast.Div}
+LAX_CMP = {"lax.gt": ast.Gt, "lax.lt": ast.Lt, "lax.ge": ast.GtE, "lax.le": ast.LtE, "lax.eq": ast.Eq}
+CONSTS = {"np.pi": math.pi, "jnp.pi": math.pi, "math.pi": math.pi, "np.inf": math.inf, "jnp.inf": math.inf, "math.inf": math.inf}
+
+
+def source_root(repo, root):
+    """`root=None`: the repository.  `root="jax"`: the installed JAX package (its `jax.scipy.stats.*.logpdf` bodies are
+    what `jax.grad` differentiates when flowjax calls them) — located without importing it."""
+    if root is None:
+        return repo
+    if root == "jax":
+        spec = importlib.util.find_spec("jax")
+        if spec is not None and spec.submodule_search_locations:
+            return os.path.dirname(list(spec.submodule_search_locations)[0])
+        hits = sorted(glob.glob("/venv/lib/python3*/site-packages/jax"))
+        if hits:
+            return os.path.dirname(hits[0])
+        raise Untranslatable("installed jax package not found")
+    raise Untranslatable(f"unknown source root {root}")
+
+
+class VecCode(str):
+    """Lean code of type `List (Expr N)` (a 1-d array result)"""
 
 
 class StructIds:
@@ -42,8 +78,15 @@ class StructIds:
 
 
 class AstTr:
-    def __init__(self, name, selfids: StructIds | None, calls, base_id, init_mode=False):
+    def __init__(self, name, selfids: StructIds | None, calls, base_id, init_mode=False, field_params=None, ignore_args=()):
         self.name, self.ids, self.calls = name, selfids, calls
+        self.field_params = field_params  # scalar fields of `self` passed as expression parameters `self_<field>`
+        self.ignore_args = tuple(ignore_args)  # argument names dropped at call sites (`condition` of unconditional kernels)
+        self.vec_mode = False  # 1-d arrays as `List (Expr N)` allowed
+        self.vec_field_params = ()  # vector fields of `self` passed as parameters `self_<field> : List (Expr N)`
+        self.dim = None      # name of the Lean `Nat` parameter holding the length of the vector fields (vector kernels only)
+        self.config = {}     # static string fields fixed by the specialisation: {"activation": "leaky_relu"}
+        self.cfg_fns = {}    # callable fields bound by `__init__` in that specialisation: {"activation_fn": <ast>}
         self.next_id = base_id
         self.env = {}  # python name -> (kind, payload): ("S", code) | ("B", code) | ("I", code) | ("V", vec id)
         self.lets = []  # list of ("S", id, code) | ("M", leanname, type, code)
@@ -58,9 +101,19 @@ class AstTr:
     def num(self, v):
         if isinstance(v, bool):
             raise Untranslatable("bool literal")
+        if isinstance(v, float) and math.isnan(v):
+            raise Untranslatable("nan literal")
+        if isinstance(v, float) and math.isinf(v):
+            return "(Expr.const Num.inf)" if v > 0 else "(Expr.const (-Num.inf))"
         if isinstance(v, int) or (isinstance(v, float) and v == int(v) and abs(v) < 1e6):
             return f"(Expr.const (Num.ofInt ({int(v)})))"
-        raise Untranslatable(f"non-integer literal {v!r} in AST mode")
+        if isinstance(v, float):
+            # shortest round-trip decimal of the double, as `Num.ofSci mantissa negativeExponent exponent`
+            sign, digits, exp = decimal.Decimal(repr(v)).as_tuple()
+            m = int("".join(map(str, digits)))
+            lit = f"(Num.ofSci {m} true {-exp})" if exp < 0 else f"(Num.ofSci {m} false {exp})"
+            return f"(Expr.const (-{lit}))" if sign else f"(Expr.const {lit})"
+        raise Untranslatable(f"literal {v!r} in AST mode")
 
     def ev(self, code):
         return f"(Expr.eval env {code})"
@@ -75,12 +128,20 @@ class AstTr:
             if n.id in self.env:
                 return self.env[n.id]
             raise Untranslatable(f"unbound {n.id} ({self.name})")
+        if isinstance(n, ast.Attribute) and ast.unparse(n) in CONSTS:
+            return "num", CONSTS[ast.unparse(n)]
         if isinstance(n, ast.Attribute):
             if isinstance(n.value, ast.Name) and n.value.id == "self":
                 if self.init_mode:
                     if n.attr in self.selfvals:
                         return self.selfvals[n.attr]
                     raise Untranslatable(f"self.{n.attr} read before set")
+                if self.field_params is not None and n.attr in self.field_params:
+                    return S, f"self_{n.attr}"
+                if n.attr in self.vec_field_params:
+                    return VE, f"self_{n.attr}"
+                if self.ids is None:
+                    raise Untranslatable("attribute " + ast.unparse(n))
                 if n.attr in self.ids.scalar:
                     return S, f"(Expr.var {self.ids.scalar[n.attr]})"
                 if n.attr in self.ids.vec:
@@ -117,38 +178,75 @@ class AstTr:
                     k, c = self.sc(n.left)
                     return S, f"(Expr.mul {c} {c})"
                 raise Untranslatable("pow")
-            a, b = self.e(n.left), self.e(n.right)
-            op = {ast.Add: "add", ast.Sub: "sub", ast.Mult: "mul", ast.Div: "div"}.get(type(n.op))
-            if op is None:
-                raise Untranslatable("binop")
-            if a[0] == "num" and b[0] == "num":
-                raise Untranslatable("constant folding")
-            if I in (a[0], b[0]):
-                if op == "div":
-                    raise Untranslatable("int div")
-                sym = {"add": "+", "sub": "-", "mul": "*"}[op]
-                ac = f"({int(a[1])} : Int)" if a[0] == "num" else a[1]
-                bc = f"({int(b[1])} : Int)" if b[0] == "num" else b[1]
-                return I, f"({ac} {sym} {bc})"
-            ac = self.num(a[1]) if a[0] == "num" else a[1]
-            bc = self.num(b[1]) if b[0] == "num" else b[1]
-            if a[0] not in ("num", S) or b[0] not in ("num", S):
-                raise Untranslatable(f"binop kinds {a[0]} {b[0]}")
-            return S, f"(Expr.{op} {ac} {bc})"
+            if isinstance(n.op, ast.MatMult):
+                return S, f"(Vec.dot {self.ve(n.left)} {self.ve(n.right)})"
+            return self.binop(type(n.op), self.e(n.left), self.e(n.right))
         if isinstance(n, ast.Compare):
             if len(n.ops) != 1:
                 raise Untranslatable("chained compare")
-            a, b = self.sc(n.left), self.sc(n.comparators[0])
-            ea, eb = self.ev(a[1]), self.ev(b[1])
-            op = type(n.ops[0])
-            code = {ast.GtE: f"(Num.le {eb} {ea})", ast.LtE: f"(Num.le {ea} {eb})", ast.Lt: f"(Num.lt {ea} {eb})",
-                    ast.Gt: f"(Num.lt {eb} {ea})", ast.Eq: f"(Num.beq {ea} {eb})"}.get(op)
-            if code is None:
-                raise Untranslatable("compare op")
-            return B, code
+            return self.compare(type(n.ops[0]), n.left, n.comparators[0])
         if isinstance(n, ast.Call):
             return self.call(n)
         raise Untranslatable(ast.dump(n)[:80])
+
+    def as_ve(self, kc):
+        k, c = kc
+        if k == VE:
+            return c
+        if k == V:
+            if self.dim is None:
+                raise Untranslatable("vector field used as an array without a dimension parameter")
+            return f"(Vec.ofVec {c} {self.dim})"
+        raise Untranslatable(f"expected a 1-d array, got {k}")
+
+    def ve(self, n):
+        return self.as_ve(self.e(n))
+
+    def binop(self, opty, a, b):
+        op = {ast.Add: "add", ast.Sub: "sub", ast.Mult: "mul", ast.Div: "div"}.get(opty)
+        if op is None:
+            raise Untranslatable("binop")
+        if self.vec_mode and (a[0] in (VE, V) or b[0] in (VE, V)):
+            # NumPy broadcasting of 1-d arrays of the same length with scalars
+            if a[0] in (VE, V) and b[0] in (VE, V):
+                return VE, f"(Vec.zip Expr.{op} {self.as_ve(a)} {self.as_ve(b)})"
+            if a[0] in (VE, V):
+                if b[0] not in ("num", S):
+                    raise Untranslatable(f"binop kinds {a[0]} {b[0]}")
+                bc = self.num(b[1]) if b[0] == "num" else b[1]
+                return VE, f"(Vec.mapR Expr.{op} {self.as_ve(a)} {bc})"
+            if a[0] not in ("num", S):
+                raise Untranslatable(f"binop kinds {a[0]} {b[0]}")
+            ac = self.num(a[1]) if a[0] == "num" else a[1]
+            return VE, f"(Vec.mapL Expr.{op} {ac} {self.as_ve(b)})"
+        if a[0] == "num" and b[0] == "num":
+            # Python-level constant arithmetic (e.g. `2 * np.pi`): the same IEEE double operation NumPy performs
+            x, y = a[1], b[1]
+            try:
+                return "num", {"add": x + y, "sub": x - y, "mul": x * y, "div": (x / y if op == "div" else None)}[op]
+            except ZeroDivisionError:
+                raise Untranslatable("constant division by zero")
+        if I in (a[0], b[0]):
+            if op == "div":
+                raise Untranslatable("int div")
+            sym = {"add": "+", "sub": "-", "mul": "*"}[op]
+            ac = f"({int(a[1])} : Int)" if a[0] == "num" else a[1]
+            bc = f"({int(b[1])} : Int)" if b[0] == "num" else b[1]
+            return I, f"({ac} {sym} {bc})"
+        ac = self.num(a[1]) if a[0] == "num" else a[1]
+        bc = self.num(b[1]) if b[0] == "num" else b[1]
+        if a[0] not in ("num", S) or b[0] not in ("num", S):
+            raise Untranslatable(f"binop kinds {a[0]} {b[0]}")
+        return S, f"(Expr.{op} {ac} {bc})"
+
+    def compare(self, op, left, right):
+        a, b = self.sc(left), self.sc(right)
+        ea, eb = self.ev(a[1]), self.ev(b[1])
+        code = {ast.GtE: f"(Num.le {eb} {ea})", ast.LtE: f"(Num.le {ea} {eb})", ast.Lt: f"(Num.lt {ea} {eb})",
+                ast.Gt: f"(Num.lt {eb} {ea})", ast.Eq: f"(Num.beq {ea} {eb})"}.get(op)
+        if code is None:
+            raise Untranslatable("compare op")
+        return B, code
 
     def sc(self, n):
         k, c = self.e(n)
@@ -164,11 +262,43 @@ class AstTr:
             return self.sc(n.func.value)
         if fn in ("jnp.sum", "float", "jnp.asarray", "jnp.array"):
             return self.sc(n.args[0])
+        if fn == "numpy_util.ensure_arraylike" and len(n.args) == 2 and not n.keywords:
+            return self.sc(n.args[1])  # argument check only
         if fn == "jnp.zeros":
             return S, self.num(0)
         if fn in PRIMS:
+            if len(n.args) != 1 or n.keywords:
+                raise Untranslatable(f"primitive {fn} with extra arguments")
             k, c = self.sc(n.args[0])
             return S, f"(Expr.prim Prim.{PRIMS[fn]} {c})"
+        if fn in LAX_BIN and len(n.args) == 2 and not n.keywords:
+            return self.binop(LAX_BIN[fn], self.e(n.args[0]), self.e(n.args[1]))
+        if fn == "lax.neg" and len(n.args) == 1:
+            k, c = self.e(n.args[0])
+            if k == "num":
+                return "num", -c
+            if k != S:
+                raise Untranslatable("lax.neg")
+            return S, f"(Expr.neg {c})"
+        if fn in LAX_CMP and len(n.args) == 2:
+            return self.compare(LAX_CMP[fn], n.args[0], n.args[1])
+        if fn == "_lax_const" and len(n.args) == 2:
+            # `_lax_const(x, c)`: the Python constant `c` in the dtype of `x`
+            k, c = self.e(n.args[1])
+            if k != "num":
+                raise Untranslatable("_lax_const of a non-constant")
+            return "num", c
+        if fn == "jnp.isnan" and len(n.args) == 1:
+            a = self.sc(n.args[0])
+            return B, f"(Num.isNaN {self.ev(a[1])})"
+        if fn == "jnp.logaddexp" and len(n.args) == 2:
+            a, b = self.sc(n.args[0]), self.sc(n.args[1])
+            return S, f"(Expr.bin Prim2.logaddexp {a[1]} {b[1]})"
+        if fn == "jnp.logical_or":
+            a, b = self.e(n.args[0]), self.e(n.args[1])
+            if a[0] != B or b[0] != B:
+                raise Untranslatable("logical_or")
+            return B, f"({a[1]} || {b[1]})"
         if fn == "jnp.where":
             ck, cc = self.e(n.args[0])
             if ck != B:
@@ -201,14 +331,64 @@ class AstTr:
             if vk != V:
                 raise Untranslatable("len")
             return I, f"(((env.v {vc}).length : Nat) : Int)"
+        if fn in ("norm", "jnp.linalg.norm") and len(n.args) == 1 and not n.keywords and self.vec_mode:
+            return S, f"(Vec.norm {self.ve(n.args[0])})"
+        if fn.startswith("self.") and fn[5:] in self.cfg_fns:
+            return self.config_call(n, self.cfg_fns[fn[5:]])
         if fn in self.calls:
-            callee = self.calls[fn]
-            args = []
-            for a in n.args:
-                k, c = self.sc(a)
-                args.append(c)
-            return S, "(" + " ".join([callee] + args) + ")"
+            return self.user_call(n, fn)
         raise Untranslatable(f"call {fn} ({self.name})")
+
+    def config_call(self, n, bound):
+        """`self.<fn>(args)` where `__init__` binds the field (in this specialisation) to `bound`: a function name, or
+        `partial(f, kw=ctor_arg)` with the constructor argument stored unchanged in `self.<ctor_arg>` (checked by
+        `py2lean.resolve_config`)."""
+        if n.keywords:
+            raise Untranslatable("keywords in a call of a configured function field")
+        if isinstance(bound, (ast.Name, ast.Attribute)):
+            return self.e(ast.Call(func=bound, args=list(n.args), keywords=[]))
+        if isinstance(bound, ast.Call) and ast.unparse(bound.func) == "partial" and len(bound.args) == 1:
+            kws = []
+            for k in bound.keywords:
+                if not isinstance(k.value, ast.Name):
+                    raise Untranslatable("partial keyword value")
+                kws.append(ast.keyword(arg=k.arg, value=ast.Attribute(value=ast.Name(id="self", ctx=ast.Load()), attr=k.value.id, ctx=ast.Load())))
+            return self.e(ast.Call(func=bound.args[0], args=list(n.args), keywords=kws))
+        raise Untranslatable("configured function field bound to " + ast.unparse(bound))
+
+    def user_call(self, n, fn):
+        """call of another generated AST function.  `calls[fn]` is its Lean name, or `(name, [parameter names])` when
+        keyword arguments must be put in positional order, or `(name, params, "pair")` when it returns a pair."""
+        callee = self.calls[fn]
+        params, pair = None, False
+        if isinstance(callee, tuple):
+            callee, params = callee[0], callee[1]
+            pair = len(self.calls[fn]) > 2 and self.calls[fn][2] == "pair"
+        pos = [a for a in n.args if not (isinstance(a, ast.Name) and a.id in self.ignore_args)]
+
+        def arg(a):
+            k, c = self.e(a)
+            if k in (VE, V) and self.vec_mode:
+                return self.as_ve((k, c))
+            return self.sc(a)[1]
+        args = [arg(a) for a in pos]
+        kws = [k for k in n.keywords if k.arg not in self.ignore_args]
+        if kws:
+            if params is None:
+                raise Untranslatable(f"keyword arguments in call {fn}")
+            for name in params[len(args):]:
+                hit = [k for k in kws if k.arg == name]
+                if len(hit) != 1:
+                    raise Untranslatable(f"call {fn}: argument {name} missing")
+                args.append(arg(hit[0].value))
+            if len(args) != len(params):
+                raise Untranslatable(f"call {fn}: arity")
+        elif params is not None and len(args) != len(params):
+            raise Untranslatable(f"call {fn}: arity")
+        kind = S
+        if isinstance(self.calls[fn], tuple) and len(self.calls[fn]) > 2:
+            kind = {"pair": "PAIR", "vec": VE}[self.calls[fn][2]]
+        return kind, "(" + " ".join([callee] + args) + ")"
 
     # ------------------------------------------------------------ statements
     def bind(self, name, kind, code):
@@ -229,6 +409,10 @@ class AstTr:
             self.env[name] = (kind, f"({ln} env)")
         elif kind == V:
             self.env[name] = (V, code)
+        elif kind == VE:
+            ln = f"{name}_{len(self.lets)}"
+            self.lets.append(("L", ln, code))
+            self.env[name] = (VE, ln)
         elif kind == "TUP":
             self.env[name] = ("TUP", code)
         else:
@@ -248,6 +432,19 @@ class AstTr:
                     vals = [self.e(v) for v in st.value.elts]
                     for nm, (k, c) in zip(t.elts, vals):
                         self.bind(nm.id, k, c)
+                elif (isinstance(t, ast.Tuple) and isinstance(st.value, ast.Call)
+                      and ast.unparse(st.value.func) == "promote_args_inexact" and len(st.value.args) == len(t.elts) + 1
+                      and all(isinstance(a, ast.Name) and isinstance(nm, ast.Name) and a.id == nm.id
+                              for a, nm in zip(st.value.args[1:], t.elts))):
+                    # `x, loc = promote_args_inexact("name", x, loc)`: dtype promotion only (float64 throughout)
+                    pass
+                elif (isinstance(t, ast.Tuple) and len(t.elts) == 2 and isinstance(st.value, ast.Call)
+                      and ast.unparse(st.value.func) in self.calls):
+                    k, c = self.e(st.value)
+                    if k != "PAIR":
+                        raise Untranslatable("tuple assignment from a non-pair call")
+                    self.bind(t.elts[0].id, S, f"{c}.1")
+                    self.bind(t.elts[1].id, S, f"{c}.2")
                 elif self.init_mode and isinstance(t, ast.Attribute) and isinstance(t.value, ast.Name) and t.value.id == "self":
                     k, c = self.e(st.value)
                     if k == "num":
@@ -257,16 +454,38 @@ class AstTr:
                     raise Untranslatable("assign form")
                 continue
             if isinstance(st, ast.Return):
-                if isinstance(st.value, ast.Tuple):
-                    ret = [self.sc(v)[1] for v in st.value.elts]
-                else:
-                    ret = [self.sc(st.value)[1]]
+                vals = list(st.value.elts) if isinstance(st.value, ast.Tuple) else [st.value]
+                ret = []
+                for v in vals:
+                    k, c = self.e(v)
+                    if k in (VE, V) and self.vec_mode:
+                        ret.append(VecCode(self.as_ve((k, c))))
+                    else:
+                        ret.append(self.sc(v)[1])
                 continue
+            if isinstance(st, ast.If) and self.config:
+                # `if self.<field> == "<value>":` on a static string field fixed by the specialisation
+                t = st.test
+                if (isinstance(t, ast.Compare) and len(t.ops) == 1 and isinstance(t.ops[0], (ast.Eq, ast.NotEq))
+                        and isinstance(t.left, ast.Attribute) and isinstance(t.left.value, ast.Name) and t.left.value.id == "self"
+                        and t.left.attr in self.config and isinstance(t.comparators[0], ast.Constant)):
+                    truth = (self.config[t.left.attr] == t.comparators[0].value) == isinstance(t.ops[0], ast.Eq)
+                    r = self.stmts(st.body if truth else st.orelse)
+                    if r is not None:
+                        ret = r
+                    continue
+                raise Untranslatable("if on a non-static condition")
+            if isinstance(st, ast.Raise):
+                raise Untranslatable("the method raises unconditionally in this specialisation")
             raise Untranslatable("statement " + type(st).__name__)
         return ret
 
     def wrap(self, code):
-        """wrap a result expression in the recorded scalar lets (innermost last)"""
+        """wrap a result expression in the recorded scalar lets (innermost last); a 1-d array result element by element"""
+        if isinstance(code, VecCode):
+            if not any(l[0] == "S" for l in self.lets):
+                return str(code)
+            return f"(Vec.mapE (fun e_ => {self.wrap('e_')}) {code})"
         out = code
         for l in reversed(self.lets):
             if l[0] == "S":
@@ -274,8 +493,13 @@ class AstTr:
         return out
 
     def metas(self):
-        ms = [l for l in self.lets if l[0] == "M"]
-        return "".join(f"  let {l[1]} : Env N → {l[2]} := fun env => {l[3]}\n" for l in ms)
+        out = ""
+        for l in self.lets:
+            if l[0] == "M":
+                out += f"  let {l[1]} : Env N → {l[2]} := fun env => {l[3]}\n"
+            elif l[0] == "L":
+                out += f"  let {l[1]} : List (Expr N) := {l[2]}\n"
+        return out
 
 
 HEADER = """/-
@@ -293,28 +517,103 @@ variable {N : Type} [Num N]
 """
 
 
-def generate_ast(repo, specs) -> dict:
-    """specs: list of dict(file, path, name, arg, struct_fields or None, calls{py->lean ast fn}, pair(bool), init(bool))"""
-    out = [HEADER]
+def _default_value(node):
+    """numeric default of a parameter that the caller leaves at its default (`loc=0, scale=1`)"""
+    if isinstance(node, ast.Constant) and isinstance(node.value, (int, float)) and not isinstance(node.value, bool):
+        return node.value
+    raise Untranslatable("non-numeric default " + ast.unparse(node))
+
+
+def generate_ast(repo, specs, header=None, id_base=0) -> dict:
+    """specs: list of dicts
+         file, path, name          source file, dotted definition path, Lean name (`<name>.ast`)
+         arg | args                the argument name(s) that become `Expr N` parameters (a single `arg` is called `x`)
+         fields                    typing sheet of `self` (ids) or None
+         calls                     {python callee: Lean AST function | (name, [params]) | (name, [params], "pair")}
+         root                      None = the repository, "jax" = the installed JAX package
+         field_params              scalar fields of `self` passed as parameters `self_<field>` instead of fixed ids
+         binders                   extra Lean binders (function parameters standing for `self.<child>.<method>`)
+         ignore_args               argument names dropped at call sites and left unbound (`condition`)
+         sub_return                translate only the function's final `return <this expression>` (free names = args)
+       Parameters of the Python function that are not listed keep their numeric DEFAULT value.
+       `id_base` offsets the let-ids so that ASTs of different generated files can be nested without capture."""
+    out = [header or HEADER]
     errors = []
     for k, sp in enumerate(specs):
         try:
-            src = open(os.path.join(repo, sp["file"])).read()
+            src = open(os.path.join(source_root(repo, sp.get("root")), sp["file"])).read()
             fn = find_def(ast.parse(src), sp["path"])
             ids = StructIds(sp["fields"]) if sp.get("fields") is not None else None
-            tr = AstTr(sp["name"], ids, sp.get("calls", {}), (k + 1) * 1000, init_mode=False)
-            tr.env[sp["arg"]] = (S, "x")
-            ret = tr.stmts(fn.body)
+            tr = AstTr(sp["name"], ids, sp.get("calls", {}), (id_base + k + 1) * 1000, init_mode=False,
+                       field_params=sp.get("field_params"), ignore_args=sp.get("ignore_args", ()))
+            tr.dim = sp.get("dim")
+            tr.vec_field_params = tuple(sp.get("vec_field_params", ()))
+            tr.vec_mode = bool(tr.dim or sp.get("vec_args") or tr.vec_field_params)
+            if sp.get("config"):
+                tr.config = dict(sp["config"])
+                tr.cfg_fns = py2lean.resolve_config(ast.parse(src), types.SimpleNamespace(
+                    config=tr.config, config_fns=tuple(sp.get("config_fns", ())), path=sp["path"]))
+            vec_args = list(sp.get("vec_args", ()))
+            for a in vec_args:
+                tr.env[a] = (VE, a)
+            if "args" in sp:
+                argnames = list(sp["args"])
+                for a in argnames:
+                    tr.env[a] = (S, a)
+            elif "arg" in sp:
+                argnames = ["x"]
+                tr.env[sp["arg"]] = (S, "x")
+            else:
+                argnames = []
+            body = fn.body
+            if sp.get("sub_lambda") is not None:
+                # the unique lambda inside the value assigned to the given target (`self.<field> = Wrapper(lambda w: …, …)`)
+                lams = [l for st in ast.walk(fn) if isinstance(st, ast.Assign) and len(st.targets) == 1
+                        and ast.unparse(st.targets[0]) == sp["sub_lambda"] for l in ast.walk(st.value) if isinstance(l, ast.Lambda)]
+                if len(lams) != 1:
+                    raise Untranslatable(f"{len(lams)} lambdas assigned into {sp['sub_lambda']}")
+                if [a.arg for a in lams[0].args.args] != list(sp.get("vec_args", [])) + list(sp.get("args", [])):
+                    raise Untranslatable("lambda parameters changed")
+                body = [ast.Return(value=lams[0].body)]
+            elif sp.get("sub_return") is not None:
+                want = ast.unparse(ast.parse(sp["sub_return"], mode="eval").body)
+                last = fn.body[-1]
+                if not (isinstance(last, ast.Return) and last.value is not None and ast.unparse(last.value) == want):
+                    raise Untranslatable(f"the function does not end with `return {want}`")
+                body = [last]
+            else:
+                # parameters left at their defaults by the caller
+                pos = fn.args.posonlyargs + fn.args.args
+                defaults = dict(zip([a.arg for a in pos][len(pos) - len(fn.args.defaults):], fn.args.defaults))
+                for a in pos:
+                    if a.arg == "self" or a.arg in tr.env or a.arg in tr.ignore_args or a.arg == sp.get("arg"):
+                        continue
+                    if a.arg not in defaults:
+                        raise Untranslatable(f"parameter {a.arg} has no default and is not an argument")
+                    try:
+                        tr.env[a.arg] = ("num", _default_value(defaults[a.arg]))
+                    except Untranslatable:
+                        pass  # e.g. `condition=None`: stays unbound, any use of it is refused
+            ret = tr.stmts(body)
             if ret is None:
                 raise Untranslatable("no return")
             idc = ""
             if ids is not None:
                 idc = f"/- ids of `{sp['name']}`: scalars {ids.scalar}, vectors {ids.vec} -/\n"
-            doc = f"/-- generated from `{sp['file']}` :: `{sp['path']}` -/\n"
+            where = sp["file"] if sp.get("root") is None else f"<{sp['root']}>/{sp['file']}"
+            doc = f"/-- generated from `{where}` :: `{sp['path']}`" + (f" (final `return {sp['sub_return']}`)" if sp.get("sub_return") else "") + (f" (the lambda stored in `{sp['sub_lambda']}`)" if sp.get("sub_lambda") else "") + " -/\n"
+            binders = "".join(f"(self_{f} : Expr N) " for f in (sp.get("field_params") or [])) + "".join(f"(self_{f} : List (Expr N)) " for f in tr.vec_field_params) + (sp.get("binders", "") + " " if sp.get("binders") else "")
+            if tr.dim:
+                binders = f"({tr.dim} : Nat) " + binders
+            if vec_args:
+                binders += "(" + " ".join(vec_args) + " : List (Expr N)) "
+            if argnames:
+                binders += "(" + " ".join(argnames) + " : Expr N)"
+            ty = lambda r: "List (Expr N)" if isinstance(r, VecCode) else "Expr N"
             if len(ret) == 1:
-                out.append(f"{idc}{doc}def {sp['name']}.ast (x : Expr N) : Expr N :=\n{tr.metas()}  {tr.wrap(ret[0])}\n")
+                out.append(f"{idc}{doc}def {sp['name']}.ast {binders} : {ty(ret[0])} :=\n{tr.metas()}  {tr.wrap(ret[0])}\n")
             else:
-                out.append(f"{idc}{doc}def {sp['name']}.ast (x : Expr N) : Expr N × Expr N :=\n{tr.metas()}  ({tr.wrap(ret[0])},\n   {tr.wrap(ret[1])})\n")
+                out.append(f"{idc}{doc}def {sp['name']}.ast {binders} : {ty(ret[0])} × {ty(ret[1])} :=\n{tr.metas()}  ({tr.wrap(ret[0])},\n   {tr.wrap(ret[1])})\n")
         except (Untranslatable, OSError, SyntaxError, KeyError, IndexError) as ex:
             errors.append({"target": sp["name"] + ".ast", "error": str(ex)})
             out.append(f"-- UNTRANSLATABLE {sp['name']}.ast: {ex}\n")
